@@ -394,3 +394,23 @@ func init() {
 	reg("C14", wcU, wcT, fw)
 	reg("C02", wcU)
 }
+
+func init() {
+	sess := map[string]string{
+		"github.com/google/btree.NewG":                           "vTreeNew",
+		"(*github.com/google/btree.BTreeG[T]).Len":               "vTreeLen",
+		"(*github.com/google/btree.BTreeG[T]).ReplaceOrInsert":   "vTreeReplaceOrInsert",
+		"(*github.com/google/btree.BTreeG[T]).Min":               "vTreeMin",
+		"(*github.com/google/btree.BTreeG[T]).Max":               "vTreeMax",
+		"(*github.com/google/btree.BTreeG[T]).DeleteMin":         "vTreeDeleteMin",
+		"(*github.com/google/btree.BTreeG[T]).Clear":             "vTreeClear",
+		"(*github.com/google/btree.BTreeG[T]).Ascend":            "vTreeAscend",
+		"(*github.com/enfein/mieru/v3/pkg/protocol.Session).output": "vStubOutput",
+		"github.com/enfein/mieru/v3/pkg/metrics.RegisterMetric":  "vStubRegisterMetric",
+		"io.ReadFull": "vStubReadFullLen",
+		"(*github.com/enfein/mieru/v3/pkg/replay.ReplayCache).IsDuplicate": "vStubIsDuplicateAny",
+	}
+	reg("C10", HarnessDef{ID: "H10.2", Spec: HarnessSpec{Name: "vH_C10_stream_hostile_segment", Pkg: "pkg/protocol", LoopBound: 8, LoopBounds: map[string]int{"closeWithError": 1001, "ReadAtLeast": 3}, TimeoutS: 240, Par: 8, Redirects: sess},
+		What:   "real StreamUnderlay.readOneSegment/readSessionSegment/readDataAckSegment/Unmarshal of an ESTABLISHED connection (client and server) whose peer holds the credential: every Decrypt is an oracle (fails, or yields ARBITRARY metadata / payload), the stream has any length 0..70000: never a panic; every error carries a type RunEventLoop accepts (it panics on NO_ERROR/UNKNOWN_ERROR); only protocol types 2..11 are passed on; never reads past the stream",
+		Bounds: "one segment; low-entropy data types 10/11 excluded here (their 64-step bit loops are C17's)", Outside: "io.ReadFull replaced by a length-only model (the bytes read are irrelevant under a decrypt oracle); replay cache answer arbitrary; first segment of a server connection (user discovery) is C05/C07"})
+}
